@@ -81,6 +81,11 @@ def gen_format_files(g):
     g.oblige_text("table", "change-report-is-an-order-free-any", bool(okr), (ret[0] if ret else fn).lineno)
     first = [n for n in ast.walk(fn) if isinstance(n, ast.For) and "sorted(filenames)" in ast.unparse(n.iter)]
     g.oblige_text("table", "folders-filled-from-the-sorted-argument", len(first) == 1, fn.lineno)
+    # a file named twice in the argument is dispatched once per pass: the dispatch list is sorted(<a set>) - the set is what merges duplicates
+    sorted_arg = asg.value.args[0] if asg is not None and isinstance(asg.value, ast.Call) and asg.value.args else None
+    src_asg = _assigned_before(fn, sorted_arg.id, asg) if isinstance(sorted_arg, ast.Name) else None
+    is_set = src_asg is not None and isinstance(src_asg.value, ast.Call) and ast.unparse(src_asg.value.func) in ("set", "frozenset") or isinstance(getattr(src_asg, "value", None), (ast.Set, ast.SetComp))
+    g.oblige_text("dataflow", "dispatch-list-is-duplicate-free", bool(is_set), call.lineno)
 
 
 def gen_format_file_frame(g):
